@@ -448,6 +448,68 @@ def escape_text_rule(r, ctx):
     return b
 
 
+
+def value_origins(crate, b, operand, depth=5, _seen=None):
+    """Where can the value of `operand` come from, across function boundaries within the crate? Follows copies inside the body (Body.sources), a
+    captured variable to what the enclosing function put into the closure, and a parameter to the corresponding argument at every non-test call of
+    the function. Returns a set of ("call", defpath) / ("const", "Adt::Variant") / ("arg", defpath#n) (a parameter whose callers are unknown) /
+    ("other", text)."""
+    import re as _re
+    _seen = set() if _seen is None else _seen
+    out = set()
+    srcs = b.sources(operand)
+    # a field of a parameter (`self.kind`) is a stored value: it is reported as that field, the parameter itself is not followed to the callers
+    via_field = {x[1].root for x in srcs if x[0] == "field" and [e for e in x[1].elems if e[0] == "f" and not str(e[2]).startswith("upvar")]}
+    for x in srcs:
+        if x[0] == "arg" and x[1] in via_field:
+            continue
+        if x[0] == "call":
+            out.add(("call", x[1].defpath or x[1].via_name or x[1].name or "?"))
+        elif x[0] == "agg":
+            out.add(("const", "%s::%s" % (str(x[1]).split("::")[-1], x[2])))
+        elif x[0] == "const":
+            out.add(("const", str(x[1])))
+        elif x[0] == "field":
+            pth = x[1]
+            m = None
+            if pth.root == 1 and pth.elems:
+                fe = [e for e in pth.elems if e[0] == "f"]
+                m = _re.match(r"^upvar(\d+)$", str(fe[0][2])) if fe else None
+            if m and depth > 0:
+                o = b.upvar_origin(int(m.group(1)))
+                if o is not None and (o[0].defpath, repr(o[1])) not in _seen:
+                    _seen.add((o[0].defpath, repr(o[1])))
+                    out |= value_origins(crate, o[0], o[1], depth - 1, _seen)
+                    continue
+            fp = [e for e in pth.elems if e[0] == "f" and not str(e[2]).startswith("upvar")]
+            if fp:
+                out.add(("field", "%s.%s" % (str(fp[-1][1]).split("::")[-1].split("<")[0], fp[-1][2])))
+        elif x[0] == "arg":
+            n = x[1]
+            if "{closure" in b.defpath:
+                continue  # the closure's own environment: reported through its fields
+            key = (b.defpath, n)
+            if key in _seen or depth <= 0:
+                continue
+            _seen.add(key)
+            found = False
+            for e in crate.index:
+                if "promoted" in e or b.defpath not in e.get("callees", ()) or "::tests" in e["def"] or e["def"] in crate.transparent_helpers():
+                    continue
+                cb = crate.body(e)
+                for c in cb.calls:
+                    if c.defpath == b.defpath and len(c.args) >= n:
+                        found = True
+                        out |= value_origins(crate, cb, c.args[n - 1], depth - 1, _seen)
+            if not found:
+                out.add(("arg", "%s#%d" % (b.defpath, n)))
+        elif x[0] in ("bin", "un"):
+            out.add(("other", x[0] + ":" + str(x[1])))
+        elif x[0] == "other":
+            out.add(("other", str(x[1])))
+    return out
+
+
 def in_variant(b, block, place, variant, gs=None):
     """Is `block` entered only while `place` (as described) holds `variant`? However the test is written: `match place { V => .. }`,
     `matches!(place, V)` / `let f = matches!(..); if f` (a hoisted flag: dom_guards adds what it implies), `place == E::V` through a derived
